@@ -129,3 +129,26 @@ Theorem C12_skipped_never_panics : forall ia ib exec original fuel st info pr st
   noeval info = true -> expr_get_value ia ib exec original fuel st info pr <> (st', Panic q).
 Proof. exact noeval_no_panic. Qed.
 Print Assumptions C12_skipped_never_panics.
+
+(* ---- the full grammar with variable, string and command operands (Proofs/ExprFacts3.v) ----
+   The state an expression returns is the initial state threaded through exactly the operand
+   leaves that C's rules evaluate (`run3`: nothing of an operand that `&&`, `||` or `?:` skips),
+   left to right; those leaves are a sub-sequence of the tree's leaves; and a leaf that is not a
+   command substitution leaves the state alone.  With C03_operand_completeness this is the
+   evaluator's behaviour on the rendered text of every such tree. *)
+From Molt Require Proofs.ExprFacts3.
+
+Theorem C12_state_threads_through_evaluated_operands_only : forall exec t st,
+  fst (ExprFacts3.ev3 exec t st) = fold_left (ExprFacts3.leaf_step exec) (ExprFacts3.run3 exec t st) st.
+Proof. exact ExprFacts3.ev3_trace. Qed.
+Print Assumptions C12_state_threads_through_evaluated_operands_only.
+
+Theorem C12_evaluated_operands_in_order : forall exec t st,
+  ExprFacts3.subseq (ExprFacts3.run3 exec t st) (ExprFacts3.leaves3 t).
+Proof. exact ExprFacts3.run3_subseq. Qed.
+Print Assumptions C12_evaluated_operands_in_order.
+
+Theorem C12_only_commands_touch_the_state : forall exec k st,
+  ExprFacts3.is_cmd k = false -> fst (ExprFacts3.lsem exec k st) = st.
+Proof. exact ExprFacts3.lsem_frame. Qed.
+Print Assumptions C12_only_commands_touch_the_state.
